@@ -14,6 +14,7 @@ package vgis3
 import (
 	"bytes"
 	"context"
+	"crypto/rand"
 	"fmt"
 	"time"
 
@@ -123,9 +124,22 @@ func (s *S3Storage) Upload(data []byte, schema *arrow.Schema, contentEncoding st
 // Ensure S3Storage implements ExternalStorage at compile time.
 var _ vgirpc.ExternalStorage = (*S3Storage)(nil)
 
-// generateUUID returns a random UUID string.
+// generateUUID returns a random (version 4) UUID string. The 16 bytes come
+// from crypto/rand: object keys must not repeat across calls, goroutines or
+// processes, which a clock reading cannot guarantee.
 func generateUUID() string {
-	b := make([]byte, 16)
-	_, _ = bytes.NewReader([]byte(fmt.Sprintf("%d", time.Now().UnixNano()))).Read(b)
+	var b [16]byte
+	if _, err := rand.Read(b[:]); err != nil {
+		// crypto/rand does not fail on supported platforms; never fall back
+		// to a predictable key.
+		panic("vgis3: reading crypto/rand: " + err.Error())
+	}
+	b[6] = (b[6] & 0x0f) | 0x40 // version 4
+	b[8] = (b[8] & 0x3f) | 0x80 // RFC 4122 variant
+	return formatUUID(b)
+}
+
+// formatUUID renders 16 bytes in the canonical 8-4-4-4-12 hex form.
+func formatUUID(b [16]byte) string {
 	return fmt.Sprintf("%x-%x-%x-%x-%x", b[0:4], b[4:6], b[6:8], b[8:10], b[10:])
 }
